@@ -16,6 +16,7 @@ import hashlib
 import json
 import logging
 import os
+import re
 import shutil
 import sys
 import time as _real_time
@@ -783,4 +784,6 @@ class _HAErrorCapture(logging.Handler):
         self.world.ha_exceptions.append(
             {"vt": self.world.vts(), "message": f"{record.name}: {msg}"[:300], "exc": None}
         )
-        self.world.trace.append(["ha_err", self.world.vts(), record.name, msg.split("\n", 1)[0][:160]])
+        # (context ids are ULIDs with a random part: not part of the digest)
+        head = re.sub(r"\(c:[0-9A-Z]{26}\)", "(c:*)", msg.split("\n", 1)[0][:160])
+        self.world.trace.append(["ha_err", self.world.vts(), record.name, head])
